@@ -16,7 +16,16 @@ PROFILE = {"crops": HIGH_CCX_CROPS * 3 + CROPS, "irr_methods": [1, 1, 2, 4, 5, 0
 
 
 def gen_case(rng, tier, idx):
-    case = std_case(rng, PROFILE)
+    prof = PROFILE
+    if idx % 4 == 1:
+        # ponded + mulched fields on slowly draining soils: small ponds that evaporation (not infiltration) exhausts,
+        # partial wetting on irrigation days - the adjustments of EsPot that must not let Es overtake it
+        prof = dict(PROFILE, soils=["Paddy", "Clay", "SiltClay", "SandyClay"], bunds=0.9, mulch_p=0.7, field_p=1.0, fallow_field_p=0.6,
+                    z_bund_choices=[0.02, 0.05, 0.15], off_season_p=0.7, custom_soil_p=0.0, archetypes=["tropical", "temperate", "warm"],
+                    event_kinds=["wet_spell", "storm", "et0_spike"], events_per_year=3.0, irr_methods=[0, 1, 2, 5, 5], n_seasons=[1, 2, 3])
+    case = std_case(rng, prof)
+    if idx % 4 == 1 and case["spec"]["irr"]["method"] != 0:
+        case["spec"]["irr"]["kwargs"]["WetSurf"] = rng.choice([10, 30, 60])
     irr = case["spec"]["irr"]
     if irr["method"] == 1 and rng.random() < 0.7:
         irr["kwargs"]["SMT"] = [rng.choice([70, 80, 90]) for _ in range(4)]
